@@ -8,6 +8,11 @@
 //   reset tchar <n>              igris::ring<char>(n)   (adds read/write)
 //   reset cyc <n>                igris::cyclic_buffer<int>(n)
 //   reset rc <size>              struct ring_counter
+//   reset bring <size>           bytering_head + exactly sized heap block
+//   reset tempty                 default-constructed igris::ring<int> (only resize may follow)
+// one-line cases (round 3): reset widths | reset premain | reset hist <size> <script> |
+//   reset histt <n> <script> | reset longrun <size> <n> | reset sizezero <what> | reset movedpush <n>
+// Translation units: C03.cpp (this file: run), C03_life.cpp (lifeprobe / lifecount), C03_gen.cpp (gen).
 // Result line = "<ret> <state…>" (state = every counter the API reports).
 // Oracle = a std::deque / std::vector mirror maintained by the harness only
 // from the operations' arguments and the documented contract.
@@ -16,11 +21,14 @@
 #include <memory>
 #include <climits>
 #include <cstring>
+#include <map>
+#include <type_traits>
 #include <igris/datastruct/ring.h>
 #include <igris/datastruct/ring_counter.h>
 #include <igris/container/ring.h>
 #include <igris/container/cyclic_buffer.h>
 #include <igris/datastruct/bytering.h>
+#include <igris/container/array_view.h>
 
 using namespace hv;
 typedef std::vector<uint8_t> bytes;
@@ -159,8 +167,12 @@ static void run_cring(const std::vector<std::string> &w, out &o)
         exact_buf src(d);
         size_t room = size - 1 - c.q.size();
         size_t acc = std::min(d.size(), room);
+        ring_head before = *r;
+        bytes snap = c.buf->vec();
         int rc = ring_write(r, c.cp(), (const char *)src.p, (unsigned)d.size());
         ret = S(rc);
+        if (content && acc == 0 && (before.head != r->head || before.tail != r->tail || snap != c.buf->vec()))
+            o.fail("write that stores nothing (full ring / length 0) changed the state");
         if (rc != (int)acc)
             o.fail("write of " + S(d.size()) + " with room " + S(room) + " returned " + S(rc));
         for (size_t i = 0; i < acc; i++) c.q.push_back(d[i]);
@@ -172,8 +184,13 @@ static void run_cring(const std::vector<std::string> &w, out &o)
         size_t n = strtoul(w[1].c_str(), 0, 10);
         exact_buf dst(n);
         size_t k = std::min(n, c.q.size());
+        ring_head before = *r;
+        bytes snap = c.buf->vec();
         int rc = ring_read(r, c.cp(), (char *)dst.p, (unsigned)n);
         size_t got = rc < 0 ? 0 : std::min((size_t)rc, n);
+        if (snap != c.buf->vec()) o.fail("read wrote to the ring buffer");
+        if (content && k == 0 && (before.head != r->head || before.tail != r->tail))
+            o.fail("read that delivers nothing (empty ring / length 0) changed the state");
         ret = S(rc) + " " + hex(dst.p, got);
         if (rc != (int)k)
             o.fail("read of " + S(n) + " with " + S(c.q.size()) + " stored returned " + S(rc));
@@ -379,6 +396,26 @@ template <class T> struct TR
             x.pop();
             if (empty) { resync(); o.tag("overmove"); } else q.pop_front();
         }
+        else if (op == "pushfull" || op == "popempty")
+        { // the property's clause "a full ring rejects writes / an empty ring rejects reads without
+          // changing state", judged on push()/pop() of the typed ring (recorded finding: they do not test)
+            unsigned h0 = x.r.head, t0 = x.r.tail, a0 = x.avail();
+            if (op == "pushfull") x.push((T)strtol(w[1].c_str(), 0, 10)); else x.pop();
+            bool applies = op == "pushfull" ? (int64_t)q.size() == size - 1 : q.empty();
+            if (applies && (x.r.head != h0 || x.r.tail != t0 || x.avail() != a0))
+                o.fail(op == "pushfull" ? "push on a full ring was not rejected: " + S(a0) + " stored elements became " + S(x.avail())
+                                        : "pop on an empty ring was not rejected: avail became " + S(x.avail()));
+            else if (!applies) { if (op == "pushfull") q.push_back((T)strtol(w[1].c_str(), 0, 10)); else q.pop_front(); }
+            if (applies) { resync(); o.tag("overmove"); }
+        }
+        else if (op == "pushalias")
+        { // the argument aliases the slot that push() constructs into
+            bool full = (int64_t)q.size() == size - 1;
+            T v = x.head_place();
+            x.push(x.head_place());
+            if (full) { resync(); o.tag("overmove"); } else q.push_back(v);
+            o.tag("alias");
+        }
         else if (op == "clear") { x.clear(); q.clear(); if (!x.empty()) o.fail("not empty after clear"); }
         else if (op == "mh1") { x.move_head_one(); resync(); }
         else if (op == "mt1") { x.move_tail_one(); resync(); }
@@ -453,6 +490,16 @@ template <class T> struct TR
             if ((int64_t)x.r.head != emod((int64_t)i + 1, size)) o.fail("set_last_index: head " + S(x.r.head));
             resync();
         }
+        else if (op == "settail")
+        { // `r` is a public member ("direct control"): place the tail, e.g. next to an index-width boundary
+            x.r.tail = (unsigned)strtoul(w[1].c_str(), 0, 10);
+            resync();
+        }
+        else if (op == "fillbuf")
+        { // the buffer is public too: slot i := i + 1, so that a store to a wrong slot is visible
+            for (size_t i = 0; i < x.buffer.size(); i++) x.buffer[i] = (T)(i + 1);
+            resync();
+        }
         else if (op == "copy")
         { // implicit copy constructor; the original is destroyed, the copy carries on
             std::unique_ptr<igris::ring<T>> c(new igris::ring<T>(x));
@@ -474,6 +521,14 @@ template <class T> struct TR
             std::unique_ptr<igris::ring<T>> c(new igris::ring<T>(std::move(x)));
             ret = S(x.buffer.size()) + " " + S(x.r.size);
             t = std::move(c);
+            o.tag("move");
+        }
+        else if (op == "moveback")
+        { // the moved-from ring is brought back to life by resize(); the moved-to object is dropped
+            size_t n = strtoul(w[1].c_str(), 0, 10);
+            { igris::ring<T> c(std::move(x)); }
+            x.resize(n); q.clear();
+            if (x.room() != n || x.buffer.size() != n + 1) o.fail("resize of a moved-from ring: room " + S(x.room()));
             o.tag("move");
         }
         else if (op == "write" || op == "read")
@@ -546,11 +601,16 @@ static void run_cyc(const std::vector<std::string> &w, out &o)
         int i = (int)strtol(w[1].c_str(), 0, 10);
         int v = x[i];
         ret = S(v);
-        size_t k = (size_t)i % cy.cap; // slots repeat with period cap
+        {
+            const igris::cyclic_buffer<int> &cx = x; // the const overload has its own body
+            if (cx[i] != v) o.fail("const operator[] disagrees with operator[]");
+        }
+        size_t k = (size_t)emod(i, (int64_t)cy.cap); // slots repeat with period cap (negative i: counter - i < size)
         int exp = k < n ? cy.log[n - 1 - k] : 0;
+        if (i < 0) o.tag("nth-neg");
         if (v != exp) o.fail("cb[" + S(i) + "] = " + S(v) + ", the " + S(k) + "-th previous sample is " + S(exp));
-        if ((size_t)i < std::min(n, cy.cap)) o.tag("nth");
-        if (n > cy.cap && n % cy.cap < (size_t)i % cy.cap + 1) o.tag("nth-wrap");
+        if (i >= 0 && (size_t)i < std::min(n, cy.cap)) o.tag("nth");
+        if (i >= 0 && n > cy.cap && n % cy.cap < (size_t)i % cy.cap + 1) o.tag("nth-wrap");
     }
     else if (op == "resize")
     {
@@ -617,158 +677,9 @@ static void run_rc(const std::vector<std::string> &w, out &o)
 }
 
 // ============================================================ lifetime probes
-// Oracle-only operations (the Lean model has no notion of object lifetime and
-// answers "-"): a ledger of live objects / live allocations observes what the
-// containers do to their elements.
-#include <set>
-struct Ledger
-{
-    std::set<const void *> live;
-    std::set<void *> blocks;
-    long allocs = 0;
-    long over_live = 0, dead_dtor = 0, dead_read = 0;
-    std::vector<std::string> errs;
-    void err(const std::string &e) { if (errs.size() < 4) errs.push_back(e); }
-};
-static Ledger LG;
-struct Tracked
-{
-    int v;
-    void born()
-    {
-        if (!LG.live.insert(this).second) { LG.over_live++; LG.err("object constructed over a live object (the old one is never destroyed)"); }
-    }
-    Tracked() : v(0) { born(); }
-    Tracked(int x) : v(x) { born(); }
-    Tracked(const Tracked &o) : v(o.v) { if (!LG.live.count(&o)) LG.dead_read++; born(); }
-    Tracked &operator=(const Tracked &o)
-    {
-        if (!LG.live.count(this)) LG.err("assignment to an object that is not alive");
-        if (!LG.live.count(&o)) LG.dead_read++;
-        v = o.v;
-        return *this;
-    }
-    ~Tracked()
-    {
-        if (!LG.live.erase(this)) { LG.dead_dtor++; LG.err("destructor run on an object that is not alive (destroyed twice or never constructed)"); }
-    }
-};
-template <class T> struct CountingAlloc
-{
-    typedef T value_type;
-    CountingAlloc() = default;
-    template <class U> CountingAlloc(const CountingAlloc<U> &) {}
-    T *allocate(size_t n)
-    {
-        LG.allocs++;
-        T *p = (T *)malloc(n ? n * sizeof(T) : 1);
-        LG.blocks.insert(p);
-        return p;
-    }
-    void deallocate(T *p, size_t n)
-    {
-        if (!p) return;
-        LG.allocs--;
-        auto it = LG.live.lower_bound(p);
-        if (it != LG.live.end() && (const char *)*it < (const char *)(p + n)) LG.err("storage released while it holds live objects");
-        LG.blocks.erase(p);
-        free(p);
-    }
-};
-typedef igris::unbounded_array<Tracked, CountingAlloc<Tracked>> TArr;
-typedef igris::ring<Tracked, CountingAlloc<Tracked>> TRng;
-typedef igris::cyclic_buffer<Tracked, CountingAlloc<Tracked>> TCyc;
-
-static void run_lifeprobe(const std::vector<std::string> &w, out &o)
-{
-    LG = Ledger();
-    const std::string &k = w[1];
-    long a = w.size() > 2 ? strtol(w[2].c_str(), 0, 10) : 0, b = w.size() > 3 ? strtol(w[3].c_str(), 0, 10) : 0;
-    if (k == "array") { TArr x(a); }
-    else if (k == "resize") { TArr x(a); x.resize(b); for (auto &e : x) e = Tracked(1); }
-    else if (k == "copy") { TArr x(a); TArr y(x); }
-    else if (k == "assign") { TArr x(a), y(b); x = y; }
-    else if (k == "selfassign") { TArr x(a); TArr &y = x; x = y; }
-    else if (k == "arrmisc")
-    { // initializer-list constructor, fill, begin/end, clear
-        TArr x{Tracked(1), Tracked(2), Tracked(3)};
-        if (x.size() != 3 || x[0].v != 1 || x[2].v != 3) LG.err("initializer_list constructor: wrong content");
-        x.fill(Tracked((int)a));
-        for (auto &e : x) if (e.v != (int)a) LG.err("fill: element not set");
-        if (x.end() - x.begin() != 3) LG.err("begin/end do not span size()");
-        x.clear();
-        if (x.size() != 0 || x.data() != nullptr) LG.err("clear: array not empty");
-    }
-    else if (k == "ringctor") { TRng r((int)a); TRng e; e.resize(b); }
-    else if (k == "push") { TRng r((int)a); for (long i = 0; i < b; i++) r.push(Tracked((int)i)); }
-    else if (k == "pushpop") { TRng r((int)a); for (long i = 0; i < b; i++) { r.push(Tracked((int)i)); r.pop(); } }
-    else if (k == "cyc") { TCyc c(a); for (long i = 0; i < b; i++) c.push(Tracked((int)i)); c.resize(a + 1); c.push(Tracked(7)); (void)c[0]; }
-    else { o.result = "bad-op"; return; }
-    if (!LG.live.empty()) LG.err(S(LG.live.size()) + " objects never destroyed");
-    if (LG.allocs != 0) LG.err(S(LG.allocs) + " allocations never released");
-    for (auto &e : LG.errs) o.fail(k + ": " + e);
-    for (void *p : LG.blocks) free(p); // keep LeakSanitizer out of it: the ledger has reported
-    LG = Ledger();
-    o.tag("lifetime");
-    o.result = "-";
-}
-
-
-
-// `lifecount <n> <script>`: igris::ring<Tracked>(n) runs the script (u push, o pop,
-// c clear, z resize(n), y copy-construct + carry on with the copy, m move-construct
-// + carry on with the new object) and is destroyed.  Result = the ledger's counts
-// "constructed-over-live  destructor-on-dead  read-of-dead" (compared with the
-// slot-lifetime model of the Lean side); the oracle judges what C03 states: the
-// values come out FIFO for this non-trivial T too.
-static void run_lifecount(const std::vector<std::string> &w, out &o)
-{
-    LG = Ledger();
-    size_t n = strtoul(w[1].c_str(), 0, 10);
-    const std::string sc = w[2] == "-" ? "" : w[2];
-    std::deque<int> q;
-    int k = 0;
-    {
-        std::unique_ptr<TRng> r(new TRng((int)n));
-        for (char ch : sc)
-        {
-            if (ch == 'u')
-            {
-                if (q.size() == n) { o.result = "bad-op"; return; }
-                r->push(Tracked(k)); q.push_back(k); k++;
-            }
-            else if (ch == 'o')
-            {
-                if (q.empty()) { o.result = "bad-op"; return; }
-                if (r->tail().v != q.front()) o.fail("tail() is " + S(r->tail().v) + ", the oldest pushed is " + S(q.front()));
-                r->pop(); q.pop_front();
-            }
-            else if (ch == 'c') { r->clear(); q.clear(); }
-            else if (ch == 'z') { r->resize(n); q.clear(); }
-            else if (ch == 'y') { std::unique_ptr<TRng> c(new TRng(*r)); r = std::move(c); }
-            else if (ch == 'm') { std::unique_ptr<TRng> c(new TRng(std::move(*r))); r = std::move(c); }
-            else { o.result = "bad-op"; return; }
-            if (r->avail() != q.size()) o.fail("avail " + S(r->avail()) + " != reference " + S(q.size()));
-            if (!q.empty() && r->last().v != q.back()) o.fail("last() is not the newest");
-        }
-        // drain: everything stored comes out in order
-        while (!q.empty())
-        {
-            if (r->empty()) { o.fail("ring empty with " + S(q.size()) + " elements outstanding"); break; }
-            if (r->tail().v != q.front()) { o.fail("drain: tail() is not the oldest"); break; }
-            q.pop_front();
-            r->move_tail_one(); // releases the slot without touching the object
-        }
-    }
-    if (LG.allocs != 0) o.fail(S(LG.allocs) + " allocations never released");
-    o.result = S(LG.over_live) + " " + S(LG.dead_dtor) + " " + S(LG.dead_read);
-    if (LG.over_live) o.tag("over-live");
-    if (LG.dead_dtor) o.tag("dead-dtor");
-    if (LG.dead_read) o.tag("dead-read");
-    for (void *p : LG.blocks) free(p);
-    LG = Ledger();
-    o.tag("lifetime");
-}
+// (second translation unit harness/C03_life.cpp)
+void run_lifeprobe(const std::vector<std::string> &w, out &o);
+void run_lifecount(const std::vector<std::string> &w, out &o);
 
 // ================================================================== bytering
 // igris/datastruct/bytering.h: the pointer version of the byte ring
@@ -866,35 +777,271 @@ static void run_bring(const std::vector<std::string> &w, out &o)
     o.result = ret + " " + bring_state(b);
 }
 
+
+// ===================================================== round 3: stateless ops
+// ---- `widths`: sizeof / signedness of every index, size and counter type the model embeds
+template <class T> static std::string ty() { return std::string(std::is_signed<T>::value ? "i" : "u") + S(sizeof(T)); }
+static std::string widths_line()
+{
+    ring_head *rp = nullptr;
+    igris::ring<char> *tp = nullptr;
+    std::string s;
+    s += "head " + ty<decltype(ring_head::head)>() + " tail " + ty<decltype(ring_head::tail)>() + " size " + ty<decltype(ring_head::size)>();
+    s += " rc.counter " + ty<decltype(ring_counter::counter)>() + " rc.size " + ty<decltype(ring_counter::size)>();
+    s += " cyc._size " + ty<decltype(igris::cyclic_buffer<int>::_size)>() + " arr.m_size " + ty<decltype(igris::unbounded_array<int>::m_size)>();
+    s += " ring_read " + ty<decltype(ring_read(rp, (const char *)0, (char *)0, 0u))>();
+    s += " ring_write " + ty<decltype(ring_write(rp, (char *)0, (const char *)0, 0u))>();
+    s += " ring_avail " + ty<decltype(ring_avail(rp))>() + " ring_room " + ty<decltype(ring_room(rp))>();
+    s += " ring_fixup_index " + ty<decltype(ring_fixup_index(rp, 0))>();
+    s += " putc " + ty<decltype(ring_putc(rp, (char *)0, 'a'))>() + " getc " + ty<decltype(ring_getc(rp, (const char *)0))>();
+    s += " t.read " + ty<decltype(tp->read((char *)0, 0))>() + " t.write " + ty<decltype(tp->write((const char *)0, 0))>();
+    s += " t.avail " + ty<decltype(tp->avail())>() + " t.room " + ty<decltype(tp->room())>() + " t.size " + ty<decltype(tp->size())>();
+    s += " t.index_of " + ty<decltype(tp->index_of((char *)0))>() + " t.tail_index " + ty<decltype(tp->tail_index())>();
+    s += " t.distance " + ty<decltype(tp->distance(0, 0))>() + " t.fixup_index " + ty<decltype(tp->fixup_index(0))>();
+    s += " ring_head " + S(sizeof(ring_head)) + " ring_counter " + S(sizeof(ring_counter));
+    s += " int_max " + S(INT_MAX) + " uint_max " + S(UINT_MAX);
+    return s;
+}
+
+// ---- `premain`: the same calls made BEFORE main() (constructor with init_priority(101), i.e. before
+// every other static object of this program and of libstdc++'s users) and now; local objects only
+static std::string ints_csv(const std::vector<int> &v)
+{
+    std::string s;
+    for (size_t i = 0; i < v.size(); i++) s += (i ? "," : "") + S(v[i]);
+    return v.empty() ? "-" : s;
+}
+static std::string premain_compute()
+{
+    ring_head r;
+    char buf[5];
+    for (int i = 0; i < 5; i++) buf[i] = (char)(i * 7 + 3);
+    ring_init(&r, 5);
+    int rc1 = ring_putc(&r, buf, (char)0xff), rc2 = ring_putc(&r, buf, (char)0x80);
+    int g1 = ring_getc(&r, buf);
+    const char src[5] = {1, 2, 3, 4, 5};
+    int wr = ring_write(&r, buf, src, 5);
+    char dst[9];
+    int rd = ring_read(&r, buf, dst, 9);
+    std::string st = cring_state(&r);
+    int fx = ring_fixup_index(&r, -1);
+    igris::ring<int> t(3);
+    t.push(1); t.push(2); t.push(3);
+    int la = t.last();
+    t.pop();
+    int tl = t.tail();
+    std::vector<int> gl = t.get_last(0, 2, true);
+    unsigned av = t.avail();
+    igris::cyclic_buffer<int> c(3);
+    c.push(10); c.push(11); c.push(12);
+    int old = c.push(13);
+    int a0 = c[0], a2 = c[2];
+    ring_counter k;
+    ring_counter_init(&k, 7);
+    ring_counter_increment(&k, 9);
+    int pv = ring_counter_prev(&k, 5);
+    return S(rc1) + " " + S(rc2) + " " + S(g1) + " " + S(wr) + " " + hex((const uint8_t *)dst, rd < 0 ? 0 : (size_t)rd) + " " + st + " " + S(fx) + " " +
+           S(la) + " " + S(tl) + " " + ints_csv(gl) + " " + S(av) + " " + S(old) + " " + S(a0) + " " + S(a2) + " " + S(c.counter.counter) + " " +
+           S(k.counter) + " " + S(pv);
+}
+static char PREMAIN[512]; // zero-initialised storage: usable before any constructor has run
+struct PreMain
+{
+    PreMain()
+    {
+        std::string s = premain_compute();
+        strncpy(PREMAIN, s.c_str(), sizeof PREMAIN - 1);
+    }
+};
+static PreMain premain_object __attribute__((init_priority(101)));
+
+// ---- `hist <size> <script>` / `histt <n> <script>`: a whole history on ONE object in one line
+static const uint8_t HB[7] = {0xff, 0x80, 0x00, 0x7f, 0x01, 0xfe, 0x81};
+static std::string hist_bytes(size_t j, size_t n)
+{
+    bytes d(n);
+    for (size_t i = 0; i < n; i++) d[i] = HB[(j + i) % 7];
+    return hex(d);
+}
+static std::vector<std::string> split(const std::string &s, char c)
+{
+    std::vector<std::string> v;
+    std::string cur;
+    for (char ch : s) { if (ch == c) { v.push_back(cur); cur.clear(); } else cur += ch; }
+    v.push_back(cur);
+    return v;
+}
+static void merge(out &o, const out &sub, size_t k, const std::string &tok)
+{
+    if (sub.oracle != "ok") o.fail("step " + S(k) + " (" + tok + "): " + sub.oracle.substr(5));
+    for (const auto &t : split(sub.tags, ','))
+        if (!t.empty() && ("," + o.tags + ",").find("," + t + ",") == std::string::npos) o.tag(t.c_str());
+}
+static void reset_cring(unsigned size, size_t blen, out &o);
+static void run_hist(const std::vector<std::string> &w, out &o)
+{
+    unsigned size = (unsigned)strtoul(w[1].c_str(), 0, 10);
+    out first;
+    reset_cring(size, size, first);
+    merge(o, first, 0, "reset");
+    size_t j = 0, k = 0;
+    std::string res;
+    for (const auto &tok : split(w[2], ','))
+    {
+        std::vector<std::string> ww;
+        size_t n = tok.size() > 1 ? strtoul(tok.c_str() + 1, 0, 10) : 0;
+        if (tok == "p") { ww = {"putc", hist_bytes(j, 1)}; j++; }
+        else if (tok == "g") ww = {"getc"};
+        else if (tok[0] == 'w') { ww = {"write", hist_bytes(j, n)}; j += n; }
+        else if (tok[0] == 'r') ww = {"read", S(n)};
+        else { o.result = "bad-op"; return; }
+        out sub;
+        run_cring(ww, sub);
+        merge(o, sub, ++k, tok);
+        res += (res.empty() ? "" : ";") + sub.result;
+    }
+    o.tag("hist");
+    o.result = res;
+}
+static void run_histt(const std::vector<std::string> &w, out &o)
+{
+    int n0 = (int)strtol(w[1].c_str(), 0, 10);
+    tc.t.reset(new igris::ring<char>(n0));
+    tc.q.clear();
+    size_t j = 0, k = 0;
+    std::string res;
+    for (const auto &tok : split(w[2], ','))
+    {
+        std::vector<std::vector<std::string>> lines;
+        size_t n = tok.size() > 1 ? strtoul(tok.c_str() + 1, 0, 10) : 0;
+        if (tok == "u") { lines = {{"push", S((int)(signed char)HB[j % 7])}}; j++; }
+        else if (tok == "o") lines = {{"tail"}, {"pop"}};
+        else if (tok[0] == 'w') { lines = {{"write", hist_bytes(j, n)}}; j += n; }
+        else if (tok[0] == 'r') lines = {{"read", S(n)}};
+        else { o.result = "bad-op"; return; }
+        ++k;
+        for (auto &ww : lines)
+        {
+            out sub;
+            tc.run(ww, sub);
+            merge(o, sub, k, tok);
+            res += (res.empty() ? "" : ";") + sub.result;
+        }
+    }
+    o.tag("hist");
+    o.result = res;
+}
+
+// ---- `longrun <size> <n>`: oracle only (the model's list buffer is quadratic in n): n bytes through
+// ONE ring_write and ONE ring_read on a ring of `size` slots whose head starts near the end
+static void run_longrun(const std::vector<std::string> &w, out &o)
+{
+    unsigned size = (unsigned)strtoul(w[1].c_str(), 0, 10);
+    size_t n = strtoul(w[2].c_str(), 0, 10);
+    exact_buf rb(size);
+    ring_head r;
+    ring_init(&r, size);
+    ring_move_head(&r, size - 1000);
+    ring_move_tail(&r, size - 1000);
+    bytes d(n);
+    uint64_t x = 88172645463325252ull;
+    for (auto &b : d) { x ^= x << 13; x ^= x >> 7; x ^= x << 17; b = (uint8_t)(x >> 24); }
+    for (size_t i = 0; i < n; i += 4099) d[i] = 0xff;
+    exact_buf src(d), dst(n + 1);
+    size_t acc = std::min<size_t>(n, size - 1);
+    int wr = ring_write(&r, (char *)rb.p, (const char *)src.p, (unsigned)n);
+    if (wr != (int)acc) o.fail("ring_write of " + S(n) + " bytes returned " + S(wr) + ", room was " + S(size - 1));
+    if (ring_avail(&r) != acc || ring_room(&r) != size - 1 - acc) o.fail("avail/room after the long write");
+    int rd = ring_read(&r, (const char *)rb.p, (char *)dst.p, (unsigned)(n + 1));
+    if (rd != (int)acc) o.fail("ring_read returned " + S(rd) + " of " + S(acc) + " stored bytes");
+    else if (memcmp(dst.p, d.data(), acc)) o.fail("the bytes read differ from the bytes written");
+    if (dst.p[n] != 0xA5 && acc == n) o.fail("ring_read stored past its return value");
+    if (!ring_empty(&r) || r.head >= size || r.tail >= size) o.fail("ring not empty / index outside [0,size) after the long read");
+    o.tag("long");
+    if (r.head < size - 1000) o.tag("wrapped");
+    o.result = "-";
+}
+
+// ---- probes of recorded findings: objects outside the property's quantifier on which the code hangs or crashes
+static void run_sizezero(const std::vector<std::string> &w, out &o)
+{ // ring_init(r, 0) / a default-constructed igris::ring: finding C03-ring-size-zero
+    ring_head r;
+    ring_init(&r, 0);
+    if (w[1] == "mh") { ring_move_head(&r, 1); o.result = S(r.head); }      // while (head >= 0) head -= 0;
+    else if (w[1] == "fix") o.result = S(ring_fixup_index(&r, 1));          // 1 % 0
+    else if (w[1] == "tlast") { igris::ring<int> t; o.result = S(t.last()); } // fixup_index on size 0
+    else if (w[1] == "tpush") { igris::ring<int> t; t.push(1); o.result = S(t.avail()); } // store through nullptr
+    else o.result = "bad-op";
+    o.fail("size 0: the call returned");
+}
+static void run_movedpush(const std::vector<std::string> &w, out &o)
+{ // finding C03-moved-from-ring-use: the moved-from ring keeps r.size but owns no storage
+    igris::ring<int> a((int)strtol(w[1].c_str(), 0, 10));
+    a.push(1);
+    igris::ring<int> b(std::move(a));
+    a.push(2);
+    o.result = S(a.avail());
+    o.fail("push on a moved-from ring returned");
+}
+
 // ------------------------------------------------------------------------ run
 static int kind = 0; // 1 ring, 2 typed int, 3 typed char, 4 cyc, 5 rc
+static void reset_cring(unsigned size, size_t blen, out &o)
+{
+    cr.reset(new CRing);
+    cr->buf.reset(new exact_buf(blen));
+    for (size_t i = 0; i < blen; i++) cr->buf->p[i] = (uint8_t)(i * 7 + 3);
+    ring_init(&cr->r, size);
+    {
+        ring_head m = RING_HEAD_INIT(size); // the static initialiser must describe the same ring
+        if (m.head != cr->r.head || m.tail != cr->r.tail || m.size != cr->r.size) o.fail("RING_HEAD_INIT differs from ring_init");
+    }
+    kind = 1;
+    cring_check(*cr, o, blen >= size);
+    o.result = "- " + cring_state(&cr->r);
+}
 static void run_op(const std::vector<std::string> &w, const std::string &, out &o)
 {
     if (w.empty()) { o.result = "bad-op"; return; }
     if (w[0] == "lifeprobe" && w.size() >= 2) { run_lifeprobe(w, o); return; }
     if (w[0] == "lifecount" && w.size() == 3) { run_lifecount(w, o); return; }
+    if (w[0] == "reset" && w.size() >= 2)
+    { // one-line cases of round 3: `reset <kind> ...` (a case of its own: crash / replay granularity = the line)
+        std::vector<std::string> v(w.begin() + 1, w.end());
+        const std::string &k = v[0];
+        if (k == "widths") { o.result = widths_line(); o.tag("consts"); return; }
+        if (k == "premain")
+        {
+            o.result = PREMAIN;
+            if (o.result != premain_compute()) o.fail("the calls made before main() gave `" + o.result + "`, the same calls now give `" + premain_compute() + "`");
+            o.tag("premain");
+            return;
+        }
+        if (k == "hist" && v.size() == 3) { run_hist(v, o); return; }
+        if (k == "histt" && v.size() == 3) { kind = 3; run_histt(v, o); return; }
+        if (k == "longrun" && v.size() == 3) { run_longrun(v, o); return; }
+        if (k == "sizezero" && v.size() == 2) { run_sizezero(v, o); return; }
+        if (k == "movedpush" && v.size() == 2) { run_movedpush(v, o); return; }
+    }
     if (w[0] == "reset")
     {
         if (w.size() == 4 && w[1] == "ring")
         {
-            cr.reset(new CRing);
             unsigned size = (unsigned)strtoull(w[2].c_str(), 0, 10);
             size_t blen = strtoull(w[3].c_str(), 0, 10);
-            cr->buf.reset(new exact_buf(blen));
-            for (size_t i = 0; i < blen; i++) cr->buf->p[i] = (uint8_t)(i * 7 + 3);
-            ring_init(&cr->r, size);
-            {
-                ring_head m = RING_HEAD_INIT(size); // the static initialiser must describe the same ring
-                if (m.head != cr->r.head || m.tail != cr->r.tail || m.size != cr->r.size) o.fail("RING_HEAD_INIT differs from ring_init");
-            }
-            kind = 1;
-            cring_check(*cr, o, blen >= size);
-            o.result = "- " + cring_state(&cr->r);
+            reset_cring(size, blen, o);
         }
         else if (w.size() == 3 && w[1] == "typed")
         {
             ti.t.reset(new igris::ring<int>((int)strtol(w[2].c_str(), 0, 10)));
             ti.q.clear(); kind = 2; ti.check(o);
+            o.result = "- " + ti.state();
+        }
+        else if (w.size() == 2 && w[1] == "tempty")
+        { // default-constructed ring (size 0, no storage): only resize() may follow
+            ti.t.reset(new igris::ring<int>());
+            ti.q.clear(); kind = 2;
+            o.tag("default-ctor");
             o.result = "- " + ti.state();
         }
         else if (w.size() == 3 && w[1] == "tchar")
@@ -943,622 +1090,7 @@ static void run_op(const std::vector<std::string> &w, const std::string &, out &
 }
 
 // ------------------------------------------------------------------------ gen
-static const std::vector<uint8_t> SPECIAL = {0xff, 0x80, 0x00, 0x7f, 0x01, 0xfe, 0x81, 0xff, 0xff};
-static uint8_t rbyte(rng &r, int mode) { return mode == 0 ? r.pick(SPECIAL) : (uint8_t)r.next(); }
-static std::string rhex(rng &r, size_t n)
-{
-    bytes m(n);
-    int mode = (int)r.below(3);
-    for (auto &x : m) x = rbyte(r, mode);
-    return hex(m);
-}
-static void P(const std::string &s) { puts(s.c_str()); }
-
-// reach (head, tail) through the API only, with `fill` chosen bytes stored
-static void reach(unsigned size, unsigned h, unsigned t, unsigned salt)
-{
-    P("reset ring " + S(size) + " " + S(size));
-    if (t) { P("mh " + S(t)); P("mt " + S(t)); }
-    unsigned k = (h + size - t) % size;
-    if (k)
-    {
-        bytes d(k);
-        for (unsigned i = 0; i < k; i++) d[i] = SPECIAL[(i + salt) % 7];
-        P("write " + hex(d));
-    }
-}
-
-static void gen_exhaustive_ring(unsigned maxsize)
-{
-    unsigned salt = 0;
-    for (unsigned size = 2; size <= maxsize; size++)
-        for (unsigned h = 0; h < size; h++)
-            for (unsigned t = 0; t < size; t++)
-            {
-                std::vector<std::string> ops = {"putc ff", "putc 00", "putc 80", "getc", "mh1", "mt1", "clean", "each",
-                                                "prod1 ff", "dump"};
-                for (unsigned n = 0; n <= size + 1; n++)
-                {
-                    ops.push_back("mh " + S(n));
-                    ops.push_back("mt " + S(n));
-                    ops.push_back("read " + S(n));
-                    bytes d(n);
-                    for (unsigned i = 0; i < n; i++) d[i] = SPECIAL[(i + n) % 7];
-                    ops.push_back("write " + hex(d));
-                    unsigned room = size - 1 - (h + size - t) % size;
-                    if (n >= 1 && n <= room) ops.push_back("prod " + hex(d));
-                    if (n <= size - 1 - room) ops.push_back("cons " + S(n));
-                    if (n == 1 && n <= size - 1 - room) ops.push_back("cons1");
-                }
-                for (const auto &op : ops)
-                {
-                    reach(size, h, t, salt++);
-                    P(op);
-                    // everything that is left must still come out in order
-                    P("read " + S(size));
-                    P("getc");
-                }
-                if (h == 0 && t == 0)
-                {
-                    reach(size, h, t, salt++);
-                    for (int i = -3 * (int)size - 1; i <= 3 * (int)size + 1; i++) P("fix " + S(i));
-                    for (int i : {INT_MIN, INT_MIN + 1, INT_MAX, INT_MAX - 1, -65536, 65536}) P("fix " + S(i));
-                }
-            }
-}
-
-static const std::vector<unsigned> SIZES = {2, 3, 4, 5, 6, 7, 8, 9, 10, 11, 13, 15, 16, 17, 31, 32, 33, 61, 63,
-                                            64, 65, 97, 127, 128, 129, 251, 255, 256, 257, 293, 300};
-
-static void gen_random_ring(rng &r, unsigned size, int nops)
-{
-    P("reset ring " + S(size) + " " + S(size));
-    unsigned cnt = 0, cap = size - 1;
-    int phase = 0, left = 0;
-    for (int k = 0; k < nops; k++)
-    {
-        if (left-- <= 0) { phase = (int)r.below(3); left = (int)r.range(5, 40); } // 0 balanced 1 fill 2 drain
-        unsigned x = (unsigned)r.below(100);
-        bool prodside = phase == 1 ? x < 70 : phase == 2 ? x < 30 : x < 50;
-        unsigned y = (unsigned)r.below(100);
-        unsigned room = cap - cnt;
-        if (y < 6)
-        {
-            int i = r.chance(50) ? (int)r.range(-3 * (int64_t)size, 3 * (int64_t)size) : r.chance(50) ? -(int)r.below(4) - 1 : (int)r.next();
-            P("fix " + S(i));
-        }
-        else if (y < 8) P("each");
-        else if (y < 9 && size <= 64) P("dump");
-        else if (y < 10)
-        {
-            if (r.chance(30)) { P("clean"); cnt = 0; }
-            else { unsigned h = (unsigned)r.below(size), t = (unsigned)r.below(size); P("set " + S(h) + " " + S(t)); cnt = (h + size - t) % size; }
-        }
-        else if (y < 13)
-        { // moves that break the producer/consumer contract: only the index clauses apply
-            unsigned n = (unsigned)r.range(0, 2 * size + 1);
-            if (r.chance(50)) { P("mh " + S(n)); cnt = (cnt + n) % size; }
-            else { P("mt " + S(n)); cnt = (cnt + 2 * size * 2 - n % size) % size; }
-        }
-        else if (prodside)
-        {
-            unsigned z = (unsigned)r.below(100);
-            if (z < 45) { P("putc " + rhex(r, 1)); if (cnt < cap) cnt++; }
-            else if (z < 65)
-            {
-                unsigned n = r.chance(20) ? room + (unsigned)r.below(3) : (unsigned)r.range(0, room + 1);
-                P("write " + rhex(r, n)); cnt += std::min(n, room);
-            }
-            else if (z < 80 && room) { unsigned n = (unsigned)r.range(1, room); P("prod " + rhex(r, n)); cnt += n; }
-            else if (z < 88 && room) { P("prod1 " + rhex(r, 1)); cnt++; }
-            else if (z < 95 && room) { unsigned n = (unsigned)r.range(0, room); P("mh " + S(n)); cnt += n; }
-            else if (room) { P("mh1"); cnt++; }
-            else { P("putc " + rhex(r, 1)); }
-        }
-        else
-        {
-            unsigned z = (unsigned)r.below(100);
-            if (z < 50) { P("getc"); if (cnt) cnt--; }
-            else if (z < 75)
-            {
-                unsigned n = r.chance(20) ? cnt + (unsigned)r.below(3) : (unsigned)r.range(0, cnt + 1);
-                P("read " + S(n)); cnt -= std::min(n, cnt);
-            }
-            else if (z < 84 && cnt) { unsigned n = (unsigned)r.range(0, cnt); P("cons " + S(n)); cnt -= n; }
-            else if (z < 90 && cnt) { P("cons1"); cnt--; }
-            else if (z < 96 && cnt) { unsigned n = (unsigned)r.range(0, cnt); P("mt " + S(n)); cnt -= n; }
-            else if (cnt) { P("mt1"); cnt--; }
-            else P("getc");
-        }
-    }
-    P("read " + S(size));
-}
-
-// every byte value through every slot alignment of a small ring
-static void gen_all_bytes()
-{
-    for (unsigned size : {2u, 3u, 5u, 8u})
-    {
-        P("reset ring " + S(size) + " " + S(size));
-        for (unsigned b = 0; b < 256; b++)
-        {
-            P("putc " + hexn(b, 2));
-            P("getc");
-        }
-        for (unsigned b = 0; b < 256; b += size - 1)
-        {
-            bytes d;
-            for (unsigned i = 0; i < size - 1; i++) d.push_back((uint8_t)(255 - (b + i) % 256));
-            P("write " + hex(d));
-            P("read " + S(size - 1));
-        }
-    }
-}
-
-// sizes above 2^31: the unsigned wrap-around in ring_avail/ring_room and in
-// head + bias; no data operations (the buffer is 16 bytes)
-static void gen_huge(rng &r)
-{
-    const std::string F = "@F:C03-bulk-move-size-above-2^31 ";
-    for (uint64_t size : {4294967295ull, 2147483648ull, 2147483649ull, 4294967294ull, 3000000000ull})
-    {
-        P("reset ring " + S(size) + " 16");
-        for (int k = 0; k < 60; k++)
-        {
-            uint64_t h = r.chance(50) ? size - 1 - r.below(4) : r.below(size);
-            uint64_t t = r.chance(50) ? r.below(4) : r.chance(50) ? size - 1 - r.below(4) : r.below(size);
-            P("set " + S(h) + " " + S(t));
-            uint64_t avail = (h + size - t) % size, room = size - 1 - avail;
-            switch (r.below(5))
-            {
-            case 0: P("mh1"); break;
-            case 1: P("mt1"); break;
-            case 2:
-            {
-                // a move within the contract (n <= room); when head + n passes 2^32 the
-                // unsigned addition wraps before the fix-up: recorded finding
-                uint64_t n = r.chance(50) ? std::min<uint64_t>(r.below(8), room) : r.below(room + 1);
-                P(std::string(h + n > 0xFFFFFFFFull ? F : "") + "mh " + S(n));
-                break;
-            }
-            case 3:
-            {
-                uint64_t n = r.chance(50) ? std::min<uint64_t>(r.below(8), avail) : r.below(avail + 1);
-                P(std::string(t + n > 0xFFFFFFFFull ? F : "") + "mt " + S(n));
-                break;
-            }
-            default: break;
-            }
-        }
-        // the witness of the finding, always present for the sizes that admit it
-        if (size > 2147483648ull && 4294967296ull - (size - 2) + 1 <= size - 1)
-        {
-            P("set " + S(size - 2) + " " + S(size - 2));
-            P(F + "mh " + S(4294967296ull - (size - 2) + 1));
-            P("set " + S(size - 3) + " " + S(size - 2));
-            P(F + "mt " + S(4294967296ull - (size - 2) + 1));
-        }
-    }
-}
-
-static void gen_typed(rng &r, bool th)
-{
-    // (a) every head position of small rings: relative accessors
-    for (int n = 1; n <= (th ? 12 : 9); n++)
-    {
-        int size = n + 1;
-        for (int h = 0; h < size; h++)
-            for (int fill = 0; fill <= n; fill += (fill < 2 || th ? 1 : n - 2 > 0 ? n - 2 : 1))
-            {
-                // tail = h - fill (mod size): advance both, then push `fill`
-                int t = ((h - fill) % size + size) % size;
-                P("reset typed " + S(n));
-                for (int i = 0; i < t; i++) { P("push " + S(-i - 1)); P("pop"); }
-                for (int i = 0; i < fill; i++) P("push " + S(100 + i));
-                P("last");
-                P("tail");
-                P("headplace");
-                for (int off = 0; off <= fill; off++)
-                    for (int c = 0; off + c <= fill; c++)
-                    {
-                        if (!th && c > 2 && off + c != fill) continue;
-                        P("getlast " + S(off) + " " + S(c) + " 1");
-                        P("getlast " + S(off) + " " + S(c) + " 0");
-                    }
-                if (fill == 0)
-                {
-                    for (int i = -2 * size - 1; i <= 2 * size + 1; i++) P("fixup " + S(i));
-                    for (int a = 0; a < size; a++)
-                        for (int b = 0; b < size; b++) P("distance " + S(a) + " " + S(b));
-                    for (int i = -1; i < size; i++) { P("setlast " + S(i)); P("last"); }
-                }
-            }
-    }
-    // (b) random histories
-    std::vector<int> ns = {1, 2, 3, 4, 6, 7, 8, 9, 10, 11, 12, 15, 16, 17, 30, 31, 32, 100, 255, 256, 299};
-    int reps = th ? 6 : 1;
-    for (int rep = 0; rep < reps; rep++)
-        for (int n0 : ns)
-        {
-            int n = n0;
-            P("reset typed " + S(n));
-            int cnt = 0, v = 1;
-            int nops = th ? 400 : 150;
-            for (int k = 0; k < nops; k++)
-            {
-                int size = n + 1;
-                unsigned y = (unsigned)r.below(100);
-                if (y < 30) { if (cnt < n || r.chance(3)) { P(std::string(r.chance(50) ? "push " : "emplace ") + S(r.chance(10) ? (int)r.next() : v++)); cnt = cnt < n ? cnt + 1 : 0; } }
-                else if (y < 50) { if (cnt > 0 || r.chance(3)) { P("pop"); cnt = cnt > 0 ? cnt - 1 : n; } }
-                else if (y < 58) P("last");
-                else if (y < 63) P("tail");
-                else if (y < 73)
-                {
-                    int off = (int)r.range(0, cnt), c = (int)r.range(0, cnt - off);
-                    if (r.chance(10)) { off = (int)r.range(0, size); c = (int)r.range(0, 2 * size); }
-                    P("getlast " + S(off) + " " + S(c) + " " + S((int)r.below(2)));
-                }
-                else if (y < 80)
-                {
-                    int i = r.chance(60) ? (int)r.range(-3 * size, 3 * size) : r.chance(50) ? -(int)r.below(3) - 1 : (int)r.next();
-                    P("fixup " + S(i));
-                }
-                else if (y < 86) P("distance " + S(r.below(size)) + " " + S(r.below(size)));
-                else if (y < 88) { int i = (int)r.range(-1, size - 1); P("setlast " + S(i)); cnt = -1; }
-                else if (y < 90) P("get " + S(r.below(size)));
-                else if (y < 92) P("headplace");
-                else if (y < 93) { P("clear"); cnt = 0; }
-                else if (y < 94) { P("rst"); cnt = 0; }
-                else if (y < 96) { n = (int)r.range(1, 40); P("resize " + S(n)); cnt = 0; }
-                else if (y < 98) { P("mh1"); cnt = -1; }
-                else { P("mt1"); cnt = -1; }
-                if (cnt < 0)
-                { // counts after an arbitrary move: let the generator re-derive them by draining
-                    P("clear"); cnt = 0;
-                }
-            }
-        }
-    // (c) ring<char>: read/write through the typed wrapper, all byte values
-    for (int n : {1, 2, 3, 7, 8, 10, 255, 256})
-    {
-        P("reset tchar " + S(n));
-        int cnt = 0;
-        for (int k = 0; k < (th ? 300 : 80); k++)
-        {
-            if (r.chance(50)) { int m = (int)r.range(0, n - cnt + 1); P("write " + rhex(r, m)); cnt += std::min(m, n - cnt); }
-            else { int m = (int)r.range(0, cnt + 1); P("read " + S(m)); cnt -= std::min(m, cnt); }
-            if (r.chance(10)) P("last");
-            if (r.chance(10)) P("tail");
-        }
-        P("read " + S(n + 1));
-    }
-}
-
-static void gen_cyc(rng &r, bool th)
-{
-    for (int n = 1; n <= (th ? 12 : 9); n++)
-    {
-        P("reset cyc " + S(n));
-        for (int k = 0; k < 3 * n + 2; k++)
-        {
-            for (int i = 0; i <= 2 * n + 1; i++) P("at " + S(i));
-            P("push " + S(1000 + k));
-        }
-        for (int i = 0; i <= 3 * n; i++) P("at " + S(i));
-    }
-    for (int n0 : {10, 15, 16, 17, 100, 255, 256, 257})
-    {
-        int n = n0;
-        P("reset cyc " + S(n));
-        for (int k = 0; k < (th ? 1500 : 600); k++)
-        {
-            unsigned y = (unsigned)r.below(100);
-            if (y < 55) P("push " + S(r.chance(10) ? (int)r.next() : k + 1));
-            else if (y < 99) P("at " + S(r.chance(70) ? r.below(n) : r.below(3 * n)));
-            else { n = (int)r.range(1, 40); P("resize " + S(n)); }
-        }
-    }
-    for (int n = 1; n <= 9; n++)
-    {
-        P("reset rc " + S(n));
-        for (int k = 0; k < 3 * n; k++)
-        {
-            for (int i = -3 * n - 1; i <= 3 * n + 1; i++)
-            {
-                if (i >= 0) P("prev " + S(i));
-                P("last " + S(i));
-                if (k == 0) P("fixpos " + S(i));
-            }
-            P("inc " + S(k % (2 * n + 1)));
-            P("get");
-        }
-        for (int v = 0; v <= 3 * n; v++) P("set " + S(v));
-    }
-    for (int n : {10, 17, 100, 256, 1000})
-    {
-        P("reset rc " + S(n));
-        for (int k = 0; k < 200; k++)
-        {
-            switch (r.below(5))
-            {
-            case 0: P("inc " + S(r.below(3 * n))); break;
-            case 1: P("set " + S(r.below(5 * n))); break;
-            case 2: P("prev " + S(r.below(4 * n))); break;
-            case 3: P("last " + S(r.range(-4 * n, 4 * n))); break;
-            default: P("fixpos " + S(r.range(-4 * n, 4 * n)));
-            }
-        }
-    }
-}
-
-
-// bytering.h: every (head, tail) state of small rings x every operation, all
-// byte values, random histories
-static void gen_bring(rng &r, bool th)
-{
-    for (unsigned size = 1; size <= (th ? 12u : 9u); size++)
-        for (unsigned rot = 0; rot < size; rot++)
-            for (unsigned fill = 0; fill + 1 <= size; fill++)
-                for (const char *op : {"push ff", "push 00", "pop", "pushn 80", "popn", "dump"})
-                {
-                    if (!strcmp(op, "pushn 80") && fill == size - 1) continue;
-                    if (!strcmp(op, "popn") && fill == 0) continue;
-                    if (size == 1 && rot) continue;
-                    P("reset bring " + S(size));
-                    for (unsigned i = 0; i < rot && size > 1; i++) { P("push " + hexn(0x10 + i, 2)); P("pop"); }
-                    for (unsigned i = 0; i < fill; i++) P("push " + hexn(SPECIAL[(i + rot) % 7], 2));
-                    P(op);
-                    for (unsigned i = 0; i <= size; i++) P("pop"); // everything left comes out in order
-                    P("push 5a");
-                    P("pop");
-                }
-    for (unsigned size : {2u, 3u, 5u, 8u})
-    {
-        P("reset bring " + S(size));
-        for (unsigned b = 0; b < 256; b++) { P("push " + hexn(b, 2)); P("pop"); }
-        for (unsigned b = 0; b < 256; b += size - 1)
-        {
-            for (unsigned i = 0; i < size - 1; i++) P("push " + hexn(255 - (b + i) % 256, 2));
-            P("push 77"); // full: rejected
-            for (unsigned i = 0; i < size; i++) P("pop");
-        }
-    }
-    for (int rep = 0; rep < (th ? 6 : 1); rep++)
-        for (unsigned size : {1u, 2u, 3u, 4u, 5u, 7u, 8u, 9u, 16u, 17u, 31u, 64u, 100u, 255u, 256u, 257u})
-        {
-            P("reset bring " + S(size));
-            unsigned cnt = 0, cap = size - 1;
-            int phase = 0, left = 0;
-            for (int k = 0; k < (th ? 500 : 200); k++)
-            {
-                if (left-- <= 0) { phase = (int)r.below(3); left = (int)r.range(5, 2 * size + 5); }
-                unsigned x = (unsigned)r.below(100);
-                bool prod = phase == 1 ? x < 75 : phase == 2 ? x < 25 : x < 50;
-                if (prod)
-                {
-                    if (cnt < cap && r.chance(20)) { P("pushn " + rhex(r, 1)); cnt++; }
-                    else { P("push " + rhex(r, 1)); if (cnt < cap) cnt++; }
-                }
-                else
-                {
-                    if (cnt && r.chance(20)) { P("popn"); cnt--; }
-                    else { P("pop"); if (cnt) cnt--; }
-                }
-                if (size <= 16 && r.chance(3)) P("dump");
-            }
-            for (unsigned i = 0; i <= cnt; i++) P("pop");
-        }
-}
-
-
-// ---- extension: ring_for_each with a body, size 1, copy/move of the typed ring,
-// the slot-lifetime counters, ring_counter at the edges of int
-static void gen_ext(rng &r, bool th)
-{
-    // (a) ring_for_each reading the slots: every (size, head, tail) state
-    unsigned salt = 0;
-    for (unsigned size = 2; size <= (th ? 12u : 9u); size++)
-        for (unsigned h = 0; h < size; h++)
-            for (unsigned t = 0; t < size; t++)
-            {
-                reach(size, h, t, salt++);
-                P("eachv");
-                P("each");
-                P("read " + S(size));
-                P("eachv");
-            }
-    // (b) a ring of size 1 (capacity 0: always empty and full)
-    P("reset ring 1 1");
-    for (const char *op : {"putc ff", "getc", "write 0102", "read 3", "each", "eachv", "mh 0", "mt 0", "mh 1", "mt 1", "mh1", "mt1",
-                           "mh 5", "clean", "fix 0", "fix -1", "fix 7", "putc 00", "getc", "dump"})
-        P(op);
-    // (c) random histories with for_each after every few operations; bulk writes that exactly fill
-    for (int rep = 0; rep < (th ? 6 : 1); rep++)
-        for (unsigned size : {2u, 3u, 4u, 5u, 7u, 8u, 9u, 16u, 17u, 33u, 64u, 100u})
-        {
-            P("reset ring " + S(size) + " " + S(size));
-            unsigned cnt = 0, cap = size - 1;
-            for (int k = 0; k < (th ? 300 : 120); k++)
-            {
-                unsigned y = (unsigned)r.below(100);
-                unsigned room = cap - cnt;
-                if (y < 20) { P("putc " + rhex(r, 1)); if (cnt < cap) cnt++; }
-                else if (y < 30) { P("write " + rhex(r, room)); cnt = cap; }                  // exactly fills
-                else if (y < 40) { unsigned n = (unsigned)r.range(0, room + 2); P("write " + rhex(r, n)); cnt += std::min(n, room); }
-                else if (y < 55) { P("getc"); if (cnt) cnt--; }
-                else if (y < 65) { P("read " + S(cnt)); cnt = 0; }                            // exactly drains
-                else if (y < 75) { unsigned n = (unsigned)r.range(0, cnt + 2); P("read " + S(n)); cnt -= std::min(n, cnt); }
-                else if (y < 80 && room) { unsigned n = (unsigned)r.range(1, room); P("prod " + rhex(r, n)); cnt += n; }
-                else if (y < 85 && cnt) { unsigned n = (unsigned)r.range(1, cnt); P("cons " + S(n)); cnt -= n; }
-                else P("eachv");
-            }
-            P("eachv");
-            P("read " + S(size));
-        }
-    // (d) igris::ring<int>: copy construction / assignment / move at every (head, fill)
-    for (int n = 1; n <= (th ? 8 : 5); n++)
-    {
-        int size = n + 1;
-        for (int h = 0; h < size; h++)
-            for (int fill = 0; fill <= n; fill++)
-                for (const char *op : {"copy", "assign", "move"})
-                {
-                    int t = ((h - fill) % size + size) % size;
-                    P("reset typed " + S(n));
-                    for (int i = 0; i < t; i++) { P("push " + S(-i - 1)); P("pop"); }
-                    for (int i = 0; i < fill; i++) P("push " + S(100 + i));
-                    P(op);
-                    if (fill) { P("last"); P("tail"); P("getlast 0 " + S(fill) + " 0"); }
-                    if (fill < n) P("push 777");
-                    for (int i = 0; i < fill + (fill < n ? 1 : 0); i++) { P("tail"); P("pop"); }
-                    // resize drops the content: the ring is empty with the new capacity
-                    P("push 5");
-                    P("resize " + S(n + 2));
-                    P("push 6");
-                    P("tail");
-                    P("last");
-                }
-    }
-    for (int rep = 0; rep < (th ? 6 : 1); rep++)
-        for (int n : {1, 2, 3, 5, 8, 16, 17, 100})
-        {
-            P("reset typed " + S(n));
-            int cnt = 0, v = 1;
-            for (int k = 0; k < (th ? 300 : 120); k++)
-            {
-                unsigned y = (unsigned)r.below(100);
-                if (y < 40) { if (cnt < n) { P("push " + S(v++)); cnt++; } }
-                else if (y < 65) { if (cnt) { P("pop"); cnt--; } }
-                else if (y < 72) P("copy");
-                else if (y < 79) P("assign");
-                else if (y < 86) P("move");
-                else if (y < 92) { if (cnt) P("last"); }
-                else if (y < 98) { if (cnt) P("tail"); }
-                else { P("resize " + S(n)); cnt = 0; }
-            }
-            P("clear");
-        }
-    // (e) slot lifetime of ring<Tracked>: every contract-respecting push/pop script up to a
-    // length on rings of 1..3 elements, then random scripts with clear/resize/copy/move
-    for (int n = 1; n <= 3; n++)
-    {
-        int maxlen = th ? 9 : 7;
-        std::vector<std::pair<std::string, int>> cur = {{"", 0}};
-        P("lifecount " + S(n) + " -");
-        for (int len = 1; len <= maxlen; len++)
-        {
-            std::vector<std::pair<std::string, int>> nxt;
-            for (auto &p : cur)
-            {
-                if (p.second < n) nxt.push_back({p.first + "u", p.second + 1});
-                if (p.second > 0) nxt.push_back({p.first + "o", p.second - 1});
-            }
-            for (auto &p : nxt) P("lifecount " + S(n) + " " + p.first);
-            cur = nxt;
-        }
-    }
-    for (int n : {1, 2, 3, 4, 5, 8, 16})
-        for (int rep = 0; rep < (th ? 40 : 8); rep++)
-        {
-            std::string sc;
-            int cnt = 0, len = (int)r.range(1, 4 * n + 10);
-            for (int k = 0; k < len; k++)
-            {
-                unsigned y = (unsigned)r.below(100);
-                if (y < 45) { if (cnt < n) { sc += 'u'; cnt++; } }
-                else if (y < 80) { if (cnt) { sc += 'o'; cnt--; } }
-                else if (y < 85) { sc += 'c'; cnt = 0; }
-                else if (y < 89) { sc += 'z'; cnt = 0; }
-                else if (y < 95) sc += 'y';
-                else sc += 'm';
-            }
-            P("lifecount " + S(n) + " " + (sc.empty() ? "-" : sc));
-        }
-    // (f) ring_counter: negative i, results below 0, the edges of int (all inside the
-    // precondition "counter +- argument fits an int")
-    for (int n : {1, 2, 3, 7, 8})
-    {
-        P("reset rc " + S(n));
-        for (int c = 0; c < n; c++)
-        {
-            P("set " + S(c));
-            for (int i = -2 * n - 1; i < 0; i++) { P("prev " + S(i)); P("last " + S(i)); }
-        }
-        P("set 0");
-        P("inc -1");
-        P("get");
-        P("prev 0");
-        P("last 0");
-        P("inc 1");
-        P("inc -" + S(n + 2));
-        P("last 1");
-        P("set 0");
-    }
-    for (long long n : {2147483647ll, 2147483646ll, 1073741824ll, 65536ll})
-    {
-        P("reset rc " + S(n));
-        P("set " + S(n - 1));
-        P("prev 0");
-        P("prev " + S(n - 1));
-        P("last -1");
-        P("inc " + S(2147483647ll - (n - 1))); // counter + arg == INT_MAX exactly
-        P("get");
-        P("set 2147483647");
-        P("get");
-        P("set 5");
-        P("prev 2147483647");
-        P("last 2147483647");
-        P("last -2147483642"); // counter - no == INT_MAX
-        P("fixpos -2147483648");
-        P("fixpos 2147483647");
-        P("inc -2147483648");
-        P("get");
-        P("set 0");
-    }
-}
-
-// element lifetime in unbounded_array / ring / cyclic_buffer (oracle-only)
-static void gen_lifetime()
-{
-    P("reset rc 1");
-    for (int a : {0, 1, 3, 8})
-    {
-        P("lifeprobe array " + S(a));
-        P("lifeprobe arrmisc " + S(a));
-        P("lifeprobe copy " + S(a));
-        P("lifeprobe selfassign " + S(a));
-        for (int b : {0, 1, 5})
-        {
-            P("lifeprobe resize " + S(a) + " " + S(b));
-            P("lifeprobe assign " + S(a) + " " + S(b));
-            P("lifeprobe ringctor " + S(a) + " " + S(b));
-            if (a) P("lifeprobe cyc " + S(a) + " " + S(b));
-        }
-    }
-    // recorded finding: igris::ring<T> placement-constructs over the live element
-    // the array constructed and pop() destroys an element the array destroys again
-    for (int n : {1, 3, 8})
-    {
-        P("@F:C03-ring-element-lifetime lifeprobe push " + S(n) + " " + S(n));
-        P("@F:C03-ring-element-lifetime lifeprobe pushpop " + S(n) + " " + S(2 * n + 1));
-    }
-}
-
-static void gen(rng &r, const std::string &tier)
-{
-    bool th = tier == "thorough";
-    gen_lifetime();
-    gen_exhaustive_ring(th ? 12 : 9);
-    gen_all_bytes();
-    gen_huge(r);
-    int reps = th ? 8 : 2;
-    for (int rep = 0; rep < reps; rep++)
-        for (unsigned size : SIZES)
-            gen_random_ring(r, size, th ? 600 : 250);
-    gen_typed(r, th);
-    gen_cyc(r, th);
-    gen_bring(r, th);
-    gen_ext(r, th);
-}
+// (third translation unit harness/C03_gen.cpp)
+void gen(rng &r, const std::string &tier);
 
 int main(int argc, char **argv) { return main_(argc, argv, gen, run_op); }
